@@ -12,9 +12,12 @@
             item has no argument.  These stand for the Section variables render/show of the model.
    argv[1] = model: the extracted print_to (scanner + sinks) is run on the format BYTES
                S:<exn>:<ret>:<hex> | F:<exn>:<ret>:<hex> | C:<exn>:<ret>:<call>,<call>...
+               hex = the sink's bytes afterwards (String: cut at the first NUL = its C string)
                call = F<pos>.<piecehex> (format_to) or S<pos>.<arg#> (show_to)
    argv[1] = spec: the grammar-level meaning (Format.texts over the ITEMS)
-               S:<exn>:<ret>:<hex> | F:<exn>:<ret>:<hex>      content '*' when FormatError *)
+               S:<exn>:<ret>:<prefix>:<text> | F:<exn>:<ret>:<hex>      '*' when FormatError
+               prefix = the bytes of init before pos (all of init when pos is beyond), text = what
+               must appear at [pos,ret); File: init followed by text *)
 let hexdig = "0123456789abcdef"
 let bytes_of_hex (s : string) : nat list =
   let n = String.length s / 2 in
@@ -39,6 +42,7 @@ let parse_item (s : string) : item =
 let marker = List.map nat_of_int [60; 63; 62]     (* "<?>" : the model asked for a rendering the generator did not intend *)
 let kind_eq a b = match a, b with
   | KInt, KInt | KFloat, KFloat | KStr, KStr | KPtr, KPtr -> true | _ -> false
+let rec cut0 = function [] -> [] | c :: r -> if c = O then [] else c :: cut0 r
 let exn_of = function ODone _ -> "ok" | ORaise _ -> "FormatError" | OCrash -> "CRASH" | OFuel -> "OUTOFFUEL"
 let () =
   let mode = Sys.argv.(1) in
@@ -76,7 +80,7 @@ let () =
             match o with
             | ODone st | ORaise st ->
               Printf.sprintf "%s:%s:%d:%s" tag (exn_of o) (match o with ODone _ -> int_of_nat st.p_pos | _ -> -1)
-                (hex_of_bytes (f_sink_bytes st.p_sink))
+                (hex_of_bytes (match st.p_sink with SString s -> cut0 s | SFile s -> s))
             | _ -> Printf.sprintf "%s:%s" tag (exn_of o) in
           let os = run (SString init) and ofl = run (SFile init) in
           let calls = match os with
@@ -90,14 +94,13 @@ let () =
         end else begin
           let rnd piece kind (v : int) = render piece kind v in
           match f_texts rnd show items argl with
-          | None -> print_endline "S:FormatError:-1:* | F:FormatError:-1:*"
+          | None -> print_endline "S:FormatError:-1:*:* | F:FormatError:-1:*"
           | Some ts ->
             let w = List.concat ts in
             let n = List.length w and p = int_of_nat pos in
-            let li = List.length init in
             let rec take k l = if k <= 0 then [] else match l with [] -> [] | x :: r -> x :: take (k - 1) r in
-            let s = if p <= li then take p init @ w else init in
-            Printf.printf "S:ok:%d:%s | F:ok:%d:%s\n" (p + n) (hex_of_bytes s) (p + n) (hex_of_bytes (init @ w))
+            Printf.printf "S:ok:%d:%s:%s | F:ok:%d:%s\n" (p + n) (hex_of_bytes (take p init)) (hex_of_bytes w)
+              (p + n) (hex_of_bytes (init @ w))
         end
       | _ -> print_endline "BADCASE"
     with e -> print_endline ("BADCASE " ^ Printexc.to_string e))
